@@ -5,6 +5,7 @@ import (
 	"flag"
 	"fmt"
 	"math/rand"
+	"sort"
 	"strings"
 )
 
@@ -52,13 +53,22 @@ func absToken(a AbsElem) string {
 	var sb strings.Builder
 	fmt.Fprintf(&sb, "%s%d.%d%s", a.C, a.W, a.V, a.Ti) // kind, wrapper levels, element / value id, type info (containers)
 	if len(a.Sub) > 0 {
-		sb.WriteString("[")
-		for i, s := range a.Sub {
-			if i > 0 {
-				sb.WriteString(",")
-			}
-			sb.WriteString(absToken(s))
+		subs := make([]string, 0, len(a.Sub))
+		for _, s := range a.Sub {
+			subs = append(subs, absToken(s))
 		}
+		if a.C == "M" && strings.HasPrefix(a.Ti, "Ccomposite") && len(subs)%2 == 0 {
+			// a map of a composite type uses, when inlined, the compact encoding shared with its same-typed siblings: a decoded one
+			// keeps its key-value content but may adopt the shared seed and internal order (C07 / C08): compared as a set of pairs
+			pairs := make([]string, 0, len(subs)/2)
+			for i := 0; i+1 < len(subs); i += 2 {
+				pairs = append(pairs, subs[i]+","+subs[i+1])
+			}
+			sort.Strings(pairs)
+			subs = pairs
+		}
+		sb.WriteString("[")
+		sb.WriteString(strings.Join(subs, ","))
 		sb.WriteString("]")
 	}
 	return sb.String()
@@ -165,6 +175,21 @@ func runVariant(kind string, cfg runCfg, table map[int][4]uint64, ops []Op, v Va
 			continue
 		}
 		ev, res := w.ExecAny(&op)
+		if kind == "nested" && (ev == "NIter" || ev == "NPop" || ev == "NIterMut") && len(res.Seq)%2 == 0 {
+			if h, ok := w.H[op.H]; ok && h.Kind == "M" && strings.HasPrefix(tiString(h.Map.Type()), "Ccomposite") {
+				// enumeration of a map of a composite type: a set of pairs (see absToken)
+				pairs := make([][2]int, 0, len(res.Seq)/2)
+				for i := 0; i+1 < len(res.Seq); i += 2 {
+					pairs = append(pairs, [2]int{res.Seq[i], res.Seq[i+1]})
+				}
+				sort.Slice(pairs, func(a, b int) bool { return pairs[a][0] < pairs[b][0] || (pairs[a][0] == pairs[b][0] && pairs[a][1] < pairs[b][1]) })
+				seq := make([]int, 0, len(res.Seq))
+				for _, p := range pairs {
+					seq = append(seq, p[0], p[1])
+				}
+				res.Seq = seq
+			}
+		}
 		rr.Results = append(rr.Results, resToken(ev, res))
 		if kind == "nested" && res.Class != "ok" {
 			rr.Errors = append(rr.Errors, "request failed: "+ev+" "+res.Class)
